@@ -13,7 +13,7 @@ func init() {
 		LevelNote:    "trusted: the device model (replication and storage classes are attributes of the device, shared by all its mount views), the API model, the oracle's reading of 'too new' (younger than the TTL when the trash request arrives); balance.go map ranges are iterated in sorted order (R4), trash/pull lists are canonicalised before use. In half of the runs the API model returns attributes that were not selected (as upstream's stub servers do) so that balanceBlock's storage-class logic is explored although EachCollection does not select storage_classes_desired.",
 		Technique:    "deterministic simulation: real keep-balance sweep over a simulated transport against API and keepstore models; injected fault = all (or some) pulls fail; trash lists executed on a physical device model; invariant and request-legality oracles",
 		DesignRef:    "5.5"})
-	props = append(props, &Prop{ID: "C06", Harness: "balance", Level: "exploration",
+	props = append(props, &Prop{ID: "C06", Harness: "balance", Level: "exploration", Also: []string{"C06K"},
 		QuickRuns: 8000, QuickChunk: 150, QuickWallS: 40, ThoroughRuns: 900000, ThoroughChunk: 750, ThoroughWallS: 600,
 		Rule:         "C06: each run draws one of three parts. (a) the real EachCollection pages through an API model holding 0-200 collections with timestamp ties of drawn multiplicity, page size 1..N (client knob and/or server cap, optional short pages) while 0..k modify/add/delete mutations (fresh modified_at) are applied between any two requests; (b) a well-formed index of 0-65 entries cut at a drawn byte with four framings (Content-Length full + unexpected EOF, no length + EOF, chunked + unexpected EOF, short consistent length) is served to arvados.KeepService.IndexMount and keepclient.GetIndex; (c) a whole Balancer.Run in which the k-th request (k drawn) fails with 500/502/503, connection reset/refused or a truncated body.",
 		Real:         []string{"services/keep-balance: EachCollection, countCollections, Balancer.Run/GetCurrentState error paths", "sdk/go/arvados: Client.RequestAndDecode, KeepService.index", "sdk/go/keepclient: KeepClient.GetIndex"},
